@@ -250,12 +250,23 @@ class DiffAntisymRBF(DiffRBF):
     be useful for enforcing exact constraints.
     """
 
+    def _get_length_scale(self, X):
+        """
+        One length scale for the first two (antisymmetrized) features,
+        followed by one for each remaining feature. An isotropic
+        length scale (scalar or length-1 array) applies to all of them.
+        """
+        length_scale = _check_length_scale(X[:, 1:], self.length_scale)
+        if np.ndim(length_scale) == 0:
+            length_scale = np.full(X.shape[1] - 1, float(length_scale))
+        return length_scale
+
     def __call__(self, X, Y=None, eval_gradient=False):
         if eval_gradient:
             raise NotImplementedError(
                 "eval_gradient not implemented for this kernel yet"
             )
-        length_scale = _check_length_scale(X[:, 1:], self.length_scale)
+        length_scale = self._get_length_scale(X)
         if Y is None:
             Y = X.copy()
         XT = X[:, 2:] / length_scale[1:]
@@ -278,12 +289,12 @@ class DiffAntisymRBF(DiffRBF):
         # This kernel is not normalised: k(x, x) = 2 - 2 g(x0 - x1),
         # with g the 1D squared-exponential, so the diag of the
         # parent RBF kernel (all ones) does not apply.
-        length_scale = _check_length_scale(X[:, 1:], self.length_scale)
+        length_scale = self._get_length_scale(X)
         diff = (X[:, 0] - X[:, 1]) / length_scale[0]
         return 2 - 2 * np.exp(-0.5 * diff * diff)
 
     def k_and_deriv(self, X, Y=None):
-        length_scale = _check_length_scale(X[:, 1:], self.length_scale)
+        length_scale = self._get_length_scale(X)
         if Y is None:
             Y = X.copy()
         XT = X[:, 2:] / length_scale[1:]
